@@ -59,6 +59,15 @@ def main():
                 passed.add(tc.get("classname") + "::" + tc.get("name"))
         stable = json.load(open("/root/.vp/BASELINE.json"))["stable_pass"]
         failed = [t for t in stable if t not in passed]
+        if failed:
+            # the repository's suite has randomised tests that fail now and then on the unchanged tree as well
+            # (TestRNP::test_on_random_inputs): a failure counts only if it repeats
+            sh(["/venv/bin/python", "-m", "pytest", "-q", "-p", "no:cacheprovider", "--timeout=900", "--continue-on-collection-errors",
+                "--junitxml=" + junit], cwd=wt, env=env, timeout=3600)
+            for tc in ET.parse(junit).getroot().iter("testcase"):
+                if not any(ch.tag in ("failure", "error", "skipped") for ch in tc):
+                    passed.add(tc.get("classname") + "::" + tc.get("name"))
+            failed = [t for t in stable if t not in passed]
         ran.append({"cmd": "pytest (repository suite) with patch", "stable_passed": len(stable) - len(failed), "stable_failed": failed})
         if failed:
             ok = False
